@@ -1216,6 +1216,11 @@ func toString(v interface{}) string {
 		return ""
 	}
 
+	// A nil pointer has no value to print (and calling a value-receiver String() on it would panic)
+	if rv := reflect.ValueOf(v); rv.Kind() == reflect.Ptr && rv.IsNil() {
+		return ""
+	}
+
 	switch val := v.(type) {
 	case string:
 		return val
